@@ -72,7 +72,7 @@ def run(module, cfg, scratch, workers=None, timeout=3600, env=None, dump=None, e
     workers = workers or os.cpu_count() or 4
     meta = os.path.join(scratch.path, 'meta-%d' % int(time.time() * 1000))
     libs = [SPEC] + ([lib] if lib else [])
-    cmd = ['java', '-XX:+UseParallelGC', '-Xmx' + heap,
+    cmd = ['java', '-XX:+UseParallelGC', '-Xmx' + heap, '-Xss256m',
            '-DTLA-Library=' + os.pathsep.join(libs)]
     if deque:
         cmd.append('-Dtlc2.tool.queue.IStateQueue=StateDeque')
